@@ -78,6 +78,16 @@ func genC03(cfg Config, emit Emit) error {
 		}
 	}
 	genC03Seq(cfg, emit)
+	// the window options of Delegate / Invoke, in both orders, on the invocation and on a proof
+	for _, e := range []string{"none", "past", "future"} {
+		for _, n := range []string{"unset", "past", "future"} {
+			for _, wh := range []string{"inv", "proof"} {
+				for _, ord := range []string{"fwd", "rev"} {
+					emit("delegwin", []string{e, n, wh, ord}, "options/"+wh, true)
+				}
+			}
+		}
+	}
 	return nil
 }
 
